@@ -7,6 +7,7 @@ use std::ffi::OsString;
 use std::ops::Range;
 use std::rc::Rc;
 use std::marker::PhantomData;
+use std::str::FromStr;
 
 verus! {
 
@@ -53,6 +54,13 @@ pub mod prelude {
 
     pub assume_specification<T: ?Sized, A: std::alloc::Allocator>[ <Box<T, A> as AsRef<T>>::as_ref ](b: &Box<T, A>) -> (r: &T)
         ensures r == &**b;
+
+    #[verifier::external_trait_specification]
+    pub trait ExFromStr: Sized {
+        type ExternalTraitSpecificationFor: std::str::FromStr;
+        type Err;
+        fn from_str(s: &str) -> Result<Self, Self::Err>;
+    }
 
     #[verifier::external_trait_specification]
     pub trait ExToString {
@@ -340,6 +348,48 @@ pub mod spec {
         }
     }
 
+    /// A-parse_os_str: conversion of an OS string into T (src/from_os_str.rs; TypeId/Any/FromStr code) is an uninterpreted function
+    pub uninterp spec fn os_parse<T>(os: OsString) -> Result<T, String>;
+
+    /// the value of the first set variable among `names` (the environment is a fixed external input of a run)
+    pub uninterp spec fn env_value(names: Seq<&'static str>) -> Option<OsString>;
+
+    /// relational denotation of parse_pos_word: the strictness table of C09
+    pub open spec fn pos_rel(position: Position, metavar: Metavar, pre: State, r: Result<OsString, Error>, post: State) -> bool {
+        if exists|i: int| #[trigger] pre.first_pos_word(i) {
+            exists|i: int| #[trigger] pre.first_pos_word(i) && {
+                let pw = pos_word(pre.items[i])->Some_0;
+                &&& post.item_state@ == pre.consumed1(i) && post.remaining == pre.remaining - 1 && post.current == Some(i as usize)
+                &&& post.items == pre.items && post.scope == pre.scope && post.path == pre.path
+                &&& if position is Strict && !pw.0 { r == Err::<OsString, Error>(Error(Message::StrictPos(i as usize, metavar))) }
+                    else if position is NonStrict && pw.0 { r == Err::<OsString, Error>(Error(Message::NonStrictPos(i as usize, metavar))) }
+                    else { r == Ok::<OsString, Error>(pw.1) }
+            }
+        } else {
+            post == pre && r is Err && is_missing_positional(r->Err_0, metavar, pre.scope)
+        }
+    }
+
+    /// relational denotation assumed for ParseArgument::take_argument (line first, then first set variable, then Missing/NoEnv)
+    pub open spec fn arg_rel(named: NamedArg, adjacent: bool, metavar: Metavar, pre: State, r: Result<OsString, Error>, post: State) -> bool {
+        if !pre.no_match(named, adjacent) {
+            exists|k: int| #[trigger] pre.first_match(named, adjacent, k) && (
+                if pre.avail(k + 1) && value_word(pre.items[k + 1]) is Some {
+                    &&& r == Ok::<OsString, Error>(value_word(pre.items[k + 1])->Some_0)
+                    &&& post.item_state@ == pre.item_state@.update(k, ItemState::Parsed).update(k + 1, ItemState::Parsed)
+                    &&& post.remaining == pre.remaining - 2 && post.current == Some((k + 1) as usize)
+                    &&& post.items == pre.items && post.scope == pre.scope && post.path == pre.path
+                } else {
+                    r is Err && is_no_argument(r->Err_0, k, metavar) && post == pre
+                })
+        } else {
+            match env_value(named.env@) {
+                Some(v) => r == Ok::<OsString, Error>(v) && post.same_but_current(pre) && post.current is None,
+                None => r is Err && (r->Err_0.0 is Missing || r->Err_0.0 is NoEnv) && post == pre,
+            }
+        }
+    }
+
     pub open spec fn res_err<T>(r: Result<T, Error>) -> Option<Error> {
         match r { Ok(_) => None, Err(e) => Some(e) }
     }
@@ -493,7 +543,7 @@ pub mod real {
 //@@ end
 
 //@@ type src/meta_help.rs | struct Metavar
-//@@ unit meta_help.Metavar tags=
+//@@ unit meta_help.Metavar tags= derive_copy
 //@@ end
 
 //@@ type src/item.rs | enum ShortLong
@@ -1461,6 +1511,8 @@ impl Doc {
         &&& !h && version_requested(*self, pre) ==> r is Ok && r->Ok_0 is Version && Some(r->Ok_0->Version_0) == self.version // #version_only_if_configured
         &&& !h && !version_requested(*self, pre) ==> r is Err && !(r->Err_0.0 is ParseFailure) // #otherwise_not_help
     }
+//@@ insert before 1 `if let Some(version) = &self.version {`
+proof { assert(forall|i: int| #![trigger args.avail(i)] #![trigger old(args).avail(i)] args.avail(i) == old(args).avail(i)); }
 //@@ also fn meta external_body
 //@@ end
 
@@ -1475,6 +1527,82 @@ impl Doc {
         ensures
             run_rel(*self, *old(args), r, *final(args)), // #refines_run_rel
             step(*old(args), *final(args)), // #step
+//@@ end
+
+
+//@@ type src/params.rs | enum Position
+//@@ unit params.Position tags= derive_copy
+//@@ end
+
+//@@ type src/params.rs | struct ParsePositional
+//@@ unit params.ParsePositional tags=
+//@@ end
+
+//@@ type src/params.rs | struct ParseArgument
+//@@ unit params.ParseArgument tags=
+//@@ end
+
+// assumed: conversion of the OS string (TypeId / Any / FromStr code) – result is the uninterpreted function os_parse
+#[verifier::external_body]
+pub fn parse_os_str<T>(os: OsString) -> (r: Result<T, String>)
+where
+    T: std::str::FromStr + 'static,
+    <T as std::str::FromStr>::Err: std::fmt::Display,
+    ensures r == os_parse::<T>(os),
+{ unimplemented!() }
+
+//@@ fn src/params.rs | fn parse_pos_word
+//@@ unit params.parse_pos_word tags=C09,C06,C05
+//@@ ret r
+//@@ spec
+        requires old(args).wf(),
+        ensures
+            pos_rel(position, metavar, *old(args), r, *final(args)), // #strictness_table
+            step(*old(args), *final(args)), // #step
+//@@ end
+
+//@@ fn src/params.rs | impl Parser for ParsePositional | fn eval
+//@@ unit params.ParsePositional.eval tags=C09,C06,C02
+//@@ members
+    open spec fn pwf(&self) -> bool { true }
+    /// the word picked by the strictness table, converted; a conversion failure is the *final* error
+    /// ParseFailed(position of the item, text returned by the conversion)
+    open spec fn rel(&self, pre: State, r: Result<T, Error>, post: State) -> bool {
+        exists|ro: Result<OsString, Error>| #[trigger] pos_rel(self.position, Metavar(self.metavar), pre, ro, post) && match ro {
+            Err(e) => r == Err::<T, Error>(e),
+            Ok(os) => match os_parse::<T>(os) {
+                Ok(v) => r == Ok::<T, Error>(v),
+                Err(s) => r == Err::<T, Error>(Error(Message::ParseFailed(post.current, s))),
+            },
+        }
+    }
+//@@ also fn meta external_body
+//@@ end
+
+//@@ fn src/params.rs | impl ParseArgument | fn take_argument
+//@@ unit params.ParseArgument.take_argument tags=C18,C02 external_body
+//@@ ret r
+//@@ spec
+        requires old(args).wf(),
+        ensures
+            arg_rel(self.named, self.adjacent, Metavar(self.metavar), *old(args), r, *final(args)),
+            step(*old(args), *final(args)),
+//@@ end
+
+//@@ fn src/params.rs | impl Parser for ParseArgument | fn eval
+//@@ unit params.ParseArgument.eval tags=C02,C06,C18
+//@@ members
+    open spec fn pwf(&self) -> bool { true }
+    open spec fn rel(&self, pre: State, r: Result<T, Error>, post: State) -> bool {
+        exists|ro: Result<OsString, Error>| #[trigger] arg_rel(self.named, self.adjacent, Metavar(self.metavar), pre, ro, post) && match ro {
+            Err(e) => r == Err::<T, Error>(e),
+            Ok(os) => match os_parse::<T>(os) {
+                Ok(v) => r == Ok::<T, Error>(v),
+                Err(s) => r == Err::<T, Error>(Error(Message::ParseFailed(post.current, s))),
+            },
+        }
+    }
+//@@ also fn meta external_body
 //@@ end
 
 }
